@@ -1,6 +1,7 @@
 import CLModel.Proto
 import CLModel.Checks.Base
 import CLModel.Compare.Pipeline
+import CLModel.Compare.PipeSession
 import CLModel.Compare.Decode
 import CLModel.Rx.Steps
 import CLModel.Ops.Rx
@@ -318,8 +319,89 @@ def opRemoveFile (toks : List String) : String :=
     | _, _ => "bad-args"
   | _ => "bad-args"
 
+/-! ### sessions (CLModel/Compare/PipeSession.lean): one comparer / one linter over a sequence of files
+
+  job := "T" <rel path> <merge 0|1> <fmt> <ref text> <l10n text>
+       | "F" <rel path> <merge 0|1> <ref text> <l10n text> <ref body> <l10n body>
+       | "A" <rel path> <merge 0|1> <l10n text> <ref items> <l10n items> -/
+
+def parseJob : List String → Option (Pipe.Job × List String)
+  | "T" :: rel :: m :: f :: r :: l :: rest => do
+    let rel ← parseText rel
+    let f ← parseFmt f
+    let r ← parseText r
+    let l ← parseText l
+    pure ({ src := .text f r.toArray l.toArray, file := Pipe.l10nFile rel, mergeOn := m == "1" }, rest)
+  | "F" :: rel :: m :: r :: l :: rest => do
+    let rel ← parseText rel
+    let r ← parseText r
+    let l ← parseText l
+    let (rb, rest) ← parseFtlBody rest
+    let (lb, rest) ← parseFtlBody rest
+    pure ({ src := .ftl r.toArray l.toArray rb lb, file := Pipe.l10nFile rel, mergeOn := m == "1" }, rest)
+  | "A" :: rel :: m :: l :: rest => do
+    let rel ← parseText rel
+    let l ← parseText l
+    let (ri, rest) ← parseABody rest
+    let (li, rest) ← parseABody rest
+    pure ({ src := .android l.toArray ri li, file := Pipe.l10nFile rel, mergeOn := m == "1" }, rest)
+  | _ => none
+
+def parseJobs : Nat → List String → Option (List Pipe.Job × List String)
+  | 0, rest => some ([], rest)
+  | n + 1, toks => do
+    let (j, rest) ← parseJob toks
+    let (js, rest) ← parseJobs n rest
+    pure (j :: js, rest)
+
+/-- c05.session <n> job*n [X … U …] : ONE comparer (one unfiltered Observer) compares the n file pairs in order; the report
+    after the last one and the outcome of every merge file, or `raise <exception> at <index of the job>` -/
+def opSession (toks : List String) : String :=
+  match toks with
+  | n :: rest =>
+    match (parseNat n).bind (fun n => parseJobs n rest) with
+    | some (jobs, ext) =>
+      match parseExt ext with
+      | some ext =>
+        match Pipe.compareSession ext jobs Pipe.SessSt.fresh with
+        | .error (i, e) => s!"raise {e.name} at {i}"
+        | .ok (st, os) =>
+          let r := (Pipe.sessReport st os).report
+          let summ := ";".intercalate (r.summary.map (fun p =>
+            showOptText p.1 ++ ":" ++ ",".intercalate (p.2.map (fun kv => toString kv.2))))
+          let det := ";".intercalate (r.details.map (fun p =>
+            "/".intercalate (p.1.map showText) ++ ":" ++ "|".intercalate (p.2.map (fun d => showCat d.1 ++ "=" ++ showDVal d.2))))
+          s!"ok summary[{summ}] details[{det}] merge={"&".intercalate (os.map Ops.C04.showOutcome)}"
+      | none => "bad-args"
+    | none => "bad-args"
+  | _ => "bad-args"
+
+def parseLintJobs : Nat → List String → Option (List Pipe.LintSrc × List String)
+  | 0, rest => some ([], rest)
+  | n + 1, lr :: toks => do
+    let (j, rest) ← parseJob toks
+    let (js, rest) ← parseLintJobs n rest
+    pure (j.toLint (lr == "1") :: js, rest)
+  | _, _ => none
+
+/-- c05.lintsession <n> (<with reference 0|1> job)*n [X … U …] : ONE `L10nLinter.lint` over the localized files of the jobs -/
+def opLintSession (toks : List String) : String :=
+  match toks with
+  | n :: rest =>
+    match (parseNat n).bind (fun n => parseLintJobs n rest) with
+    | some (jobs, ext) =>
+      match parseExt ext with
+      | some ext =>
+        match Pipe.lintSession ext jobs {} with
+        | .error (i, e) => s!"raise {e.name} at {i}"
+        | .ok rss => "ok " ++ " & ".intercalate (rss.map (fun rs => "|".intercalate (rs.map showLintResult)))
+      | none => "bad-args"
+    | none => "bad-args"
+  | _ => "bad-args"
+
 def ops : List (String × (List String → String)) :=
   [("basecheck", opBase), ("c05.rxsteps", opRxSteps), ("c05.comparef", opCompareF), ("c05.addfile", opAddFile),
    ("c05.removefile", opRemoveFile), ("c05.decode", opDecode), ("c05.cmpbytes", opCmpBytes), ("c05.compare", opCompare), ("c05.lint", opLint),
-   ("c05.cmpftl", opCmpFtl), ("c05.lintftl", opLintFtl), ("c05.cmpxml", opCmpXml), ("c05.lintxml", opLintXml)]
+   ("c05.cmpftl", opCmpFtl), ("c05.lintftl", opLintFtl), ("c05.cmpxml", opCmpXml), ("c05.lintxml", opLintXml),
+   ("c05.session", opSession), ("c05.lintsession", opLintSession)]
 end Ops.C05
